@@ -265,15 +265,19 @@ whitespace, first token, "every whitespace run between two neighbouring tokens/c
 acceptable separator for the second one" (`sepOk`: `""`, `" "`, or one line break / one blank line
 followed by an indentation run; nothing at all in front of `;`), trailing whitespace. -/
 
-/-- SPACING NORMAL FORM. For every well-formed file of the fragment without `with` (`File.basic`:
-    containers, parentheses, function calls, any nesting — the spacing proof has not been extended to
-    `with e; body` yet; no counterexample is known there, the decidable conclusion is evaluated on every
-    sample of every run) in which no one-line container holds a comment in front of an item, no comment
-    stands between `(` and a value on the same line, and no comment touches the function of a call whose
-    argument is on the same line (`Src.beforeFlatB`: the items of a container without a line break, the
-    value of a parenthesis whose leading gap has no line break and the argument of a call whose gap
-    has no line break have empty leading trivia; see `cex_block_comment_after_opener`,
-    `cex_comment_after_open_paren`, `cex_comment_touching_function`), the rebuilt file has
+/-- SPACING NORMAL FORM. For every well-formed file of the fragment without `with` / `assert` and with at
+    most one blank line between the colon of a lambda and its body (`File.basic`: containers,
+    parentheses, function calls, select `e.a.b`, `or default`, lambda `x: body`, unary and binary
+    operators, any nesting — the spacing proof has not been extended to `with e; body` / `assert e; body`
+    yet; no counterexample is known there, the decidable conclusion is evaluated on every sample of every
+    run; the lambda clause is needed: `cex_blank_lines_after_colon`) in which no one-line container holds
+    a comment in front of an item, no comment stands between `(` and a value on the same line, no comment
+    touches the function of a call whose argument is on the same line, and at most one blank line stands
+    in front of / after a binary operator (`Src.beforeFlatB`: the items of a container without a line
+    break, the value of a parenthesis whose leading gap has no line break and the argument of a call whose
+    gap has no line break have empty leading trivia; the two gaps of a binary operator hold at most two
+    line breaks; see `cex_block_comment_after_opener`, `cex_comment_after_open_paren`,
+    `cex_comment_touching_function`, `cex_blank_lines_around_operator`), the rebuilt file has
     no whitespace before its first token, every separator is in the formatter's normal form, `;`
     is attached, and the file ends with at most one blank line. -/
 theorem frag_spacing_nf (f : File) (s : Src) (hwf : f.wf = true) (_hws : f.noLeadingWs = true)
@@ -401,6 +405,60 @@ theorem cex_comment_touching_function : ¬ frag_spacing_nf_nocall_full := by
 example : callCommentFile.flatten = "{\n  a = f/* c */ x;\n}".toList := by decide
 example : callCommentFile.roundtrip = .ok "{\n  a = f   /* c */\nx;\n}".toList := by decide
 example : (match callCommentFile.parse with | .ok s => s.beforeFlatB | _ => true) = false := by decide
+
+/-- `a⏎⏎⏎  + b`: `BinaryExpression.from_cst` counts the line breaks of the gap in front of the operator
+    (`gap_line_info`) and `rebuild` writes as many — two blank lines stay (the same after the operator).
+    Same root cause as the open finding `C18-spacing-blank-lines-binary_expression`. Hence the clause
+    of `beforeFlatB` for binary operators (`beforeFlatG` carries `beforeFlatB` through them without it). -/
+def binBlankFile : File :=
+  { items := .elem [] (.bin (.leaf .ident "a".toList) [] "\n\n\n  ".toList "+".toList [] " ".toList (.leaf .ident "b".toList)) .nil,
+    endGap := "\n".toList }
+
+theorem cex_blank_lines_around_operator : ¬ frag_spacing_nf_grown_full := by
+  intro h
+  have := h binBlankFile _ (by decide) (by decide) rfl (by decide)
+  revert this; decide
+
+example : binBlankFile.flatten = "a\n\n\n  + b\n".toList := by decide
+example : binBlankFile.roundtrip = .ok "a\n\n\n+ b\n".toList := by decide
+example : binBlankFile.basic = true ∧ (match binBlankFile.parse with | .ok s => s.beforeFlatB | _ => true) = false := by decide
+
+/-- the spacing statement without `File.basic` (`beforeFlatB` keeps `with` / `assert` out by itself) — false -/
+def frag_spacing_nf_nobasic_full : Prop :=
+  ∀ (f : File) (s : Src), f.wf = true → f.noLeadingWs = true → f.parse = .ok s → s.beforeFlatB = true →
+    (summ s.rebuildP).fileOk = true
+
+/-- `x:⏎⏎⏎  y`: `FunctionDefinition.from_cst` (`_collect_colon_trivia`) turns the first line break after
+    the colon into `breaks_after_semicolon` and every further one into a blank-line marker in front of
+    the body, and `rebuild` writes them all — two blank lines stay. Same root cause as the open finding
+    `C18-spacing-blank-lines-function_expression`. Hence the lambda clause of `File.basic`: at most two
+    line breaks between the colon and the body. -/
+def lamBlankFile : File :=
+  { items := .elem [] (.lam "x".toList [] [] [] "\n\n\n  ".toList (.leaf .ident "y".toList)) .nil, endGap := "\n".toList }
+
+theorem cex_blank_lines_after_colon : ¬ frag_spacing_nf_nobasic_full := by
+  intro h
+  have := h lamBlankFile _ (by decide) (by decide) rfl (by decide)
+  revert this; decide
+
+example : lamBlankFile.flatten = "x:\n\n\n  y\n".toList := by decide
+example : lamBlankFile.roundtrip = .ok "x:\n\n\ny\n".toList := by decide
+example : lamBlankFile.basic = false := by decide
+
+/-- select, `or`, lambda, unary and binary operators in non-canonical layouts, satisfying the hypotheses -/
+def opsSample : File :=
+  { items := .elem [] (.set false [] (.bind "\n  ".toList "a".toList [] " ".toList [] " ".toList
+      (.lam "x".toList [] [] [] "  ".toList
+        (.bin (.un "!".toList [] " ".toList (.selOr (.leaf .ident "x".toList) [] [] [] ["b".toList, "c".toList] [] "  ".toList " ".toList
+            (.leaf .ident "d".toList)))
+          [] "\n\n      ".toList "+".toList [] "\t".toList (.un "-".toList [] [] (.sel (.leaf .ident "y".toList) [] " ".toList [] ["e".toList]))))
+      [] [] .nil) "\n".toList) .nil,
+    endGap := "\n".toList }
+
+example : opsSample.flatten = "{\n  a = x:  ! x.b.c  or d\n\n      +\t-y .e;\n}\n".toList := by decide
+example : opsSample.roundtrip = .ok "{\n  a = x: !x.b.c or d\n\n  + -y.e;\n}\n".toList := by decide
+example : opsSample.wf = true ∧ opsSample.noLeadingWs = true ∧ opsSample.basic = true := by decide
+example : (match opsSample.parse with | .ok s => s.beforeFlatB | _ => false) = true := by decide
 
 /-- parentheses and calls in many layouts, with comments, satisfying the hypotheses -/
 def grownSample : File :=
